@@ -108,7 +108,7 @@ fn bits_from(seed: u64, n: usize) -> Vec<bool> {
 }
 
 /// Disk invariant: returns the set of piece indices whose file is present and verified.
-fn check_disk(t: &Torrent, cache: &mut BTreeMap<String, (u64, std::time::SystemTime, bool)>, fails: &mut Vec<(String, String)>, what: &str) -> BTreeSet<usize> {
+fn check_disk(t: &Torrent, planted: &BTreeMap<String, Vec<u8>>, cache: &mut BTreeMap<String, (u64, std::time::SystemTime, bool)>, fails: &mut Vec<(String, String)>, what: &str) -> BTreeSet<usize> {
     let mut owned = BTreeSet::new();
     let rd = match std::fs::read_dir(".") {
         Ok(r) => r,
@@ -140,6 +140,11 @@ fn check_disk(t: &Torrent, cache: &mut BTreeMap<String, (u64, std::time::SystemT
                 ok
             }
         };
+        if !ok && planted.get(&name).map(|d| std::fs::read(e.path()).map(|cur| cur == *d).unwrap_or(false)).unwrap_or(false) {
+            // the damaged file of an earlier run that the harness put there, untouched: not the client's doing, and
+            // not a verified piece
+            continue;
+        }
         if !ok {
             fails.push((
                 "stored-piece-fails-hash".into(),
@@ -161,6 +166,12 @@ pub fn check(c: &Case) -> Outcome {
     let geo = Geometry::single(c.piece_len, total, c.seed);
     let n = geo.pieces_num();
     let t = Torrent::new(geo.clone());
+    let mut planted: BTreeMap<String, Vec<u8>> = BTreeMap::new();
+    if c.seed % 4 == 1 {
+        // a restart: damaged piece files of an earlier run are in the directory
+        planted = t.write_damaged_leftovers(c.seed).into_iter().collect();
+        o.class("damaged-leftover-piece-files");
+    }
     let c2 = c.clone();
     let t2 = t.clone();
     let res = swarm::run(c.seed, &t, move |w: &mut World| {
@@ -350,7 +361,7 @@ pub fn check(c: &Case) -> Outcome {
                     break;
                 }
                 // (1) disk
-                let owned = check_disk(&t, &mut cache, &mut fails, &what);
+                let owned = check_disk(&t, &planted, &mut cache, &mut fails, &what);
                 // (2) ownership
                 let snap = w.snapshot();
                 for i in 0..n {
@@ -408,7 +419,7 @@ pub fn check(c: &Case) -> Outcome {
             let mut completed = true;
             if w.fatal().is_none() && fails.is_empty() && inv.fails.is_empty() {
                 completed = finisher(w, &mut net, &mut inv, true).await;
-                let owned = check_disk(&t, &mut cache, &mut fails, "after the finisher");
+                let owned = check_disk(&t, &planted, &mut cache, &mut fails, "after the finisher");
                 if completed && owned.len() != n {
                     fails.push(("have-without-verified-file".into(), format!("all pieces Have but only {:?} verified on disk", owned)));
                 }
@@ -456,14 +467,14 @@ pub fn check(c: &Case) -> Outcome {
 pub fn def() -> PropDef {
     PropDef {
         id: "C01",
-        rule: "a torrent (piece length from {1,7,100,16383,16384,16385,20000,32768 (+40000,49153 thorough)}, 1-14 pieces, generated last-piece length) and up to 3 scripted peers with generated advertised subsets, driven by a global schedule of up to 60 steps; a step lets one peer answer one outstanding request correctly, with one bit flipped, with other bytes of the piece, at another offset, for another piece index, truncated, extended, or send a duplicate, a block for a request of an earlier assignment, an unrequested block, withhold, choke, unchoke, disconnect, join, announce a piece, repeat its bitfield (also an empty one), or itself request a block from the client. After every barrier: every file in the store is <HEX-SHA1>.piece of a listed hash with that piece's length and content hashing to its name, nothing else appears, verified pieces never disappear; every Have status has its verified file; every Have / bitfield bit / Piece frame the client wrote refers to a piece verified on disk at that barrier (and served bytes are the content); reservations are backed by live fetchers. Finally an honest peer must be able to complete the download and the real Extractor must reproduce the content. Non-trivial = at least one bad block was sent and either an assembled piece failed its hash or some piece was completed; distinct by hash of the case.",
+        rule: "(in a quarter of the cases damaged piece files of an earlier run - right name and length, zeroed tail - lie in the download directory: a restart) a torrent (piece length from {1,7,100,16383,16384,16385,20000,32768 (+40000,49153 thorough)}, 1-14 pieces, generated last-piece length) and up to 3 scripted peers with generated advertised subsets, driven by a global schedule of up to 60 steps; a step lets one peer answer one outstanding request correctly, with one bit flipped, with other bytes of the piece, at another offset, for another piece index, truncated, extended, or send a duplicate, a block for a request of an earlier assignment, an unrequested block, withhold, choke, unchoke, disconnect, join, announce a piece, repeat its bitfield (also an empty one), or itself request a block from the client. After every barrier: every file in the store is <HEX-SHA1>.piece of a listed hash with that piece's length and content hashing to its name, nothing else appears, verified pieces never disappear; every Have status has its verified file; every Have / bitfield bit / Piece frame the client wrote refers to a piece verified on disk at that barrier (and served bytes are the content); reservations are backed by live fetchers. Finally an honest peer must be able to complete the download and the real Extractor must reproduce the content. Non-trivial = at least one bad block was sent and either an assembled piece failed its hash or some piece was completed; distinct by hash of the case.",
         assumptions: &["observation granularity is the quiescence barrier: 'advertised only after stored' is checked as 'stored at the barrier in which the advertisement was read'"],
         subs: vec![Sub {
             name: "adversary",
             cases: |t| t.pick(15_000, 200_000),
             run: |ctx| run_proptest(ctx, "adversary", strategy(ctx.tier), check),
             replay: |v| replay_case::<Case>(v, check),
-            min_class: &[("corrupt-block", 0.2518), ("assembled-piece-failed-hash", 0.2), ("right-data-wrong-offset", 0.05), ("wrong-piece-index", 0.05), ("client-served-a-block", 0.05), ("disconnect", 0.2), ("stale-block", 0.03), ("duplicate-block", 0.1), ("repeated-bitfield", 0.1)],
+            min_class: &[("corrupt-block", 0.2518), ("assembled-piece-failed-hash", 0.2), ("right-data-wrong-offset", 0.05), ("wrong-piece-index", 0.05), ("client-served-a-block", 0.05), ("disconnect", 0.2), ("stale-block", 0.03), ("duplicate-block", 0.1), ("repeated-bitfield", 0.1), ("damaged-leftover-piece-files", 0.1)],
         }],
     }
 }
